@@ -717,6 +717,25 @@ class Effects:
                 idx = p_.values.index(cur) if cur in p_.values else 0
                 if any(txt in ast.unparse(v) for v in p_.values[:idx]):
                     return True
+            # a guard clause earlier in the same block:  `if not isinstance(x, T): ... return`
+            # / `if x is None: return` - what follows runs with x set
+            for fld in ("body", "orelse", "finalbody"):
+                blk = getattr(p_, fld, None)
+                if isinstance(blk, list) and cur in blk:
+                    for prev in blk[:blk.index(cur)]:
+                        if isinstance(prev, ast.If) and not prev.orelse and prev.body \
+                                and isinstance(prev.body[-1], (ast.Return, ast.Raise, ast.Continue, ast.Break)):
+                            t = prev.test
+                            neg_inst = isinstance(t, ast.UnaryOp) and isinstance(t.op, ast.Not) \
+                                and isinstance(t.operand, ast.Call) and A.call_name(t.operand) == "isinstance" \
+                                and t.operand.args and ast.unparse(t.operand.args[0]) == txt
+                            is_none = isinstance(t, ast.Compare) and len(t.ops) == 1 and isinstance(t.ops[0], ast.Is) \
+                                and ast.unparse(t.left) == txt and isinstance(t.comparators[0], ast.Constant) \
+                                and t.comparators[0].value is None
+                            falsy = isinstance(t, ast.UnaryOp) and isinstance(t.op, ast.Not) \
+                                and ast.unparse(t.operand) == txt
+                            if neg_inst or is_none or falsy:
+                                return True
             cur = p_
         return False
 
